@@ -36,7 +36,18 @@ def gen(rng, tier):
     while len(sched) < n:
         t = rng.randrange(nt + (1 if rng.random() < 0.05 else 0))
         sched += [t] * rng.choice([1, 1, 1, 2, 3])
+    if rng.random() < 0.3:
+        # finer than the modelled step: the scheduler may also preempt a thread inside `fetch_update`, between its
+        # closure and the compare-exchange (monitor-only search: closures with side effects, stale reads)
+        cfg = dict(cfg, inner=1)
+        n = rng.randint(0, int(total * 2.2) + 2)
+        while len(sched) < n:
+            sched += [rng.randrange(nt)] * rng.choice([1, 1, 2])
     return mk_case(cfg, progs, sched[:n])
+
+
+def model_applies(case):
+    return "inner=1" not in case["header"]
 
 
 _EXH = None
@@ -156,6 +167,8 @@ def transitions(case, lines):
     tags = []
     cfg = kvs(case["header"])
     tags.append("kind-" + cfg.get("kind", "token"))
+    if cfg.get("inner") == "1":
+        tags.append("preempted-inside-fetch-update")
     for l in lines:
         _, w = tparse(l)
         if w and w[0] == "skip":
@@ -174,8 +187,8 @@ SPECS = {
     "C08": {
         "group": "budget", "module": "TR.Props.C08", "gen": gen_thorough,
         "monitors": [("c08-conservation", mon_conservation), ("c08-linearizable", mon_linearizable)],
-        "transitions": transitions, "nontrivial": nontrivial,
-        "all_transitions": ["kind-token", "kind-aimd", "withdraw-granted", "withdraw-refused", "deposit", "skip"],
+        "transitions": transitions, "nontrivial": nontrivial, "model_applies": model_applies,
+        "all_transitions": ["kind-token", "kind-aimd", "withdraw-granted", "withdraw-refused", "deposit", "skip", "preempted-inside-fetch-update"],
         "model_modules": ["TR.Model.Budget", "TR.Lemmas.Budget"],
         "lean_files": ["TR.Model.Budget", "TR.Lemmas.Budget"],
         "sizes": (500, 20000),
@@ -183,7 +196,8 @@ SPECS = {
                 "atomics; the baton scheduler grants one atomic operation per schedule entry; random schedules (thorough tier first enumerates "
                 "every schedule of 2 threads x 2 operations for the token bucket); model and code must agree on the turn trace, every "
                 "try_withdraw result, the final balance and limit; non-trivial = a granted withdrawal plus a refusal or a deposit",
-        "trusted": ["verif-hooks atomics wrappers + baton scheduler (one granted turn = one atomic operation)",
+        "trusted": ["30% of the schedules also preempt inside fetch_update (between closure and compare-exchange): for those the step model does not apply and only the conservation / cap / linearizability monitors decide (search, not proof; the model treats a fetch_update with a pure closure as one step, which std's contract makes sound)",
+                    "verif-hooks atomics wrappers + baton scheduler (one granted turn = one atomic operation)",
                     "relaxed atomics modelled as sequentially consistent per location (single-location coherence)",
                     "decrease factor generated as an exact dyadic rational"],
         "assumptions": ["u64 balances as unbounded Nat (no overflow: balances stay below max + amount)"],
